@@ -303,9 +303,9 @@ def convolve_cases(rng, tier, extended):
             off, reslen = window(rng, size, A)
             out.append(Case(f"pf_kron_raw {N} {lpk} {st} {n} {size} {off} {reslen} {fmt(p)} {fmt(q)}", k=True, o=True))
     # large sizes, generated operands, sampled output indices (O only)
-    big = [(100, 8192), (150, 8192), (151, 8192), (310, 16384), (500, 8192), (280, 32768), (500, 32768)]
+    big = [(100, 8192), (150, 8192), (151, 8192), (310, 16384), (500, 8192), (280, 32768), (500, 32768), (280, 65536), (500, 65536)]
     if tier != "quick":
-        big += [(280, 65536), (281, 65536), (500, 65536), (245, 131072), (246, 131072), (245, 262144), (500, 262144), (500, 524288),
+        big += [(281, 65536), (245, 131072), (246, 131072), (245, 262144), (500, 262144), (500, 524288),
                 (64, 524288)]
     for bits, size in big:
         n = modulus(rng, bits)
@@ -325,6 +325,19 @@ def convolve_cases(rng, tier, extended):
                 logsize = size.bit_length() - 1
                 out.append(Case(f"pf_convolve_ntt {n} {logsize} {size} {off} {reslen} {ops}", k=False, o=True, timeout=to,
                                 profiles=None if size <= 16384 else ["release"]))
+    if extended:
+        # boundary sweep (run when a proof or the translator broke): every bit length around each threshold of the table,
+        # maximal coefficients, sizes around the size thresholds: a moved threshold shows up as overlapping digits
+        for bnd in (150, 245, 280, 310, 500):
+            for bits in range(bnd - 14, min(bnd + 15, 513)):
+                n = (1 << bits) - rng.choice([1, 3, 5])
+                for size in (16, 4096, 8192, 16384, 32768):
+                    if arm_of(bits, size) is None or bits > 500:
+                        continue
+                    A = 1 << arm_of(bits, size)[2]
+                    idx = sample_idx(rng, size, A, count=8)
+                    out.append(Case(f"pf_convolve {n} {size} 0 {size} g:{size}:{rng.getrandbits(32)}:m g:{size}:{rng.getrandbits(32)}:m {fmt(idx)}",
+                                    k=False, o=True, timeout=120.0, profiles=["release"]))
     # sizes the table refuses: the mechanism model (with the translated table) must predict the panic
     n = modulus(rng, 500)
     out.append(Case(f"pf_kron {n} 1048576 0 1 1 1", k=True, o=False))
